@@ -128,6 +128,268 @@ def replay_history_prop(ctx):
 
 
 # ------------------------------------------------------------------------------------------------
+# C17: the same battery under several feature sets of indextree
+
+ALL_FEATURES = ["std", "macros", "par_iter", "deser"]
+
+
+def feature_sets(tier):
+    if tier == "thorough":
+        sets = []
+        for m in range(16):
+            sets.append(",".join(f for i, f in enumerate(ALL_FEATURES) if m >> i & 1))
+        # default first: it is the reference
+        sets.remove("std,macros")
+        return ["std,macros"] + sets
+    return ["std,macros", "", "std", "std,macros,par_iter,deser"]
+
+
+def _fname(fs):
+    return "f-" + (fs.replace(",", "-") if fs else "nostd")
+
+
+def c17_build(ctx, fs):
+    td = os.path.join(ctx["TARGET"], _fname(fs))
+    rc, out, dt = ctx["build"](["itv"], "vrel", features=fs, target_dir=td)
+    return rc, out, os.path.join(td, "vrel", "itv")
+
+
+def run_c17(ctx):
+    prop, tier, seed = ctx["prop"], ctx["tier"], ctx["seed"]
+    res = dict(partials=[], violations=[], known_lines=[], output="")
+    ref = None
+    os.makedirs(os.path.join(ctx["VERIF"], "replays", prop), exist_ok=True)
+    for fs in feature_sets(tier):
+        label = fs or "(none: no_std + alloc)"
+        rc, out, exe = c17_build(ctx, fs)
+        if rc != 0:
+            if ref is None:
+                ctx["fail_infra"](prop, "the default feature set does not build", out)
+            path = os.path.join(ctx["VERIF"], "replays", prop, f"build-{_fname(fs)}.log")
+            open(path, "w").write(out)
+            res["violations"].append((path, f"feature set [{label}] does not compile although the default set does"))
+            break
+        part = os.path.join(ctx["TARGET"], "partials", f"{prop}-{_fname(fs)}.json")
+        dig = os.path.join(ctx["TARGET"], "partials", f"{prop}-{_fname(fs)}.dig")
+        for f in (part, dig):
+            if os.path.exists(f):
+                os.remove(f)
+        rc, out, dt = ctx["sh"]([exe, "run", "--prop", prop, "--tier", tier, "--seed", str(seed), "--build", _fname(fs), "--out", part, "--digests", dig], timeout=6 * 3600)
+        res["output"] += out
+        if rc not in (0, 1) or not os.path.exists(part):
+            res["inconclusive"] = f"runner [{label}] exited with {rc}"
+            continue
+        p = json.load(open(part))
+        p["label"] = f"features: {label}"
+        res["partials"].append(p)
+        if rc == 1 and p.get("violation"):
+            v = p["violation"]
+            res["violations"].append((v["replay"], f"[features {label}] {v['sig']}: {v['msg']}"))
+            break
+        d = open(dig).read().splitlines()
+        if ref is None:
+            ref = (fs, d, exe)
+        elif d != ref[1]:
+            d1 = ref[1]
+            idx = next((i for i in range(min(len(d1), len(d))) if d1[i] != d[i]), min(len(d1), len(d)))
+            case = int(d1[idx].split()[0]) if idx < len(d1) else -1
+            worker, ci = case >> 32, case & 0xFFFFFFFF
+            if worker >= 1000:  # long-history worker ids are offset by 1000 and use their own seed/profile; report the index only
+                ops = []
+            else:
+                rc2, out2, _ = ctx["sh"]([exe, "emit", "--prop", prop, "--seed", str(seed), "--worker", str(worker), "--case", str(ci)], timeout=600)
+                try:
+                    ops = json.loads(out2.strip().splitlines()[-1])
+                except Exception:
+                    ops = []
+            path = os.path.join(ctx["VERIF"], "replays", prop, f"features-{_fname(fs)}-{worker}-{ci}.json")
+            json.dump(dict(property=prop, profile=prop, sig="features/digest-differs", message=f"builds [{ref[0] or 'none'}] and [{label}] observe different results for this history",
+                           found_by=f"digest comparison worker {worker} case {ci}", seed=seed, build=f"{_fname(ref[0])} vs {_fname(fs)}", ops=ops, trace=[], note=f"features_a={ref[0]};features_b={fs}"),
+                      open(path, "w"), indent=1)
+            res["violations"].append((path, f"feature sets [{ref[0]}] and [{label}] disagree (first differing history: worker {worker} case {ci})"))
+            break
+    return res
+
+
+def replay_c17(ctx):
+    """a C17 replay file is either a plain history (judged by the oracles in the default build) or a digest disagreement between two feature sets"""
+    rf = json.load(open(ctx["replay"]))
+    note = rf.get("note", "")
+    m = re.match(r"features_a=(.*);features_b=(.*)", note)
+    sets = [m.group(1), m.group(2)] if m else ["std,macros", "", "std,macros,par_iter,deser"]
+    digs = []
+    worst = 0
+    for fs in sets:
+        rc, out, exe = c17_build(ctx, fs)
+        if rc != 0:
+            print(out[-2000:])
+            return 2
+        rc, out, _ = ctx["sh"]([exe, "replay", "--prop", "C17", "--file", ctx["replay"], "--any-sig"], timeout=3600)
+        print(f"--- features [{fs}]")
+        print(out.rstrip())
+        if rc == 1:
+            worst = 1
+        rc, out, _ = ctx["sh"]([exe, "digest", "--prop", "C17", "--file", ctx["replay"]], timeout=3600)
+        print(out.rstrip())
+        digs.append(out.strip())
+    if len(set(digs)) > 1:
+        worst = 1
+    if worst == 1:
+        print(f"VIOLATION property=C17 replay={ctx['replay']}")
+    return worst
+
+
+# ------------------------------------------------------------------------------------------------
+# C18: Send/Sync (compile-time), no unsafe / interior mutability (lexical tripwire, auxiliary),
+# concurrent readers vs single thread (generated arenas), TSan in thorough
+
+LEX = [
+    (r"\bunsafe\b", "unsafe code"),
+    (r"\bcell::\w|\b(RefCell|UnsafeCell|OnceCell|LazyCell)\b", "std::cell interior mutability"),
+    (r"\batomic::\w|\bAtomic(Bool|Usize|Isize|U8|U16|U32|U64|I8|I16|I32|I64|Ptr)\b", "atomics"),
+    (r"\b(Mutex|RwLock|Condvar|OnceLock|LazyLock)\b|\bsync::Once\b", "locks / once cells"),
+    (r"\bstatic\s+mut\b", "static mut"),
+    (r"\bthread_local!", "thread-local state"),
+    (r"\b(parking_lot|once_cell|lazy_static|spin)::", "external interior-mutability crates"),
+]
+
+
+def strip_comments(src):
+    out = []
+    for line in src.splitlines():
+        # drop line comments (good enough for this code base: no '//' inside string literals of the scanned items)
+        i = line.find("//")
+        out.append(line if i < 0 else line[:i])
+    txt = "\n".join(out)
+    return re.sub(r"/\*.*?\*/", "", txt, flags=re.S)
+
+
+def lexical_scan(repo="/repo/indextree/src"):
+    hits = []
+    files = sorted(f for f in os.listdir(repo) if f.endswith(".rs"))
+    for f in files:
+        txt = strip_comments(open(os.path.join(repo, f)).read())
+        for ln, line in enumerate(txt.splitlines(), 1):
+            for rx, what in LEX:
+                if re.search(rx, line):
+                    hits.append(f"{f}:{ln}: {what}: {line.strip()[:120]}")
+    lib = open(os.path.join(repo, "lib.rs")).read()
+    if not re.search(r"#!\[forbid\([^)]*unsafe_code", strip_comments(lib)):
+        hits.append("lib.rs: #![forbid(unsafe_code)] is missing")
+    return files, hits
+
+
+def run_c18(ctx):
+    prop, tier, seed = ctx["prop"], ctx["tier"], ctx["seed"]
+    res = dict(partials=[], violations=[], known_lines=[], output="")
+    rdir = os.path.join(ctx["VERIF"], "replays", prop)
+    os.makedirs(rdir, exist_ok=True)
+    td = os.path.join(ctx["TARGET"], "c18")
+    extra = {}
+    # (1) lexical tripwire (auxiliary, states the clause literally)
+    files, hits = lexical_scan()
+    extra["lexical_tripwire"] = dict(files_scanned=files, hits=hits, note="auxiliary guard, not generated-input search")
+    if hits:
+        path = os.path.join(rdir, "lexical-scan.txt")
+        open(path, "w").write("\n".join(hits) + "\n")
+        res["violations"].append((path, "the crate source contains unsafe code / interior mutability:\n" + "\n".join(hits[:6])))
+    # (2) type-level clause: decided by compiling the assertions for every T: Send + Sync
+    rc, out, dt = ctx["build"](["itv-core"], "vrel", target_dir=td)
+    if rc != 0:
+        ctx["fail_infra"](prop, "harness core does not build", out)
+    rc, out, dt = ctx["build"](["itv-c18-static"], "vrel", target_dir=td)
+    if rc != 0:
+        path = os.path.join(rdir, "send-sync-compile.log")
+        open(path, "w").write(out)
+        msg = [l for l in out.splitlines() if l.startswith("error")][:3]
+        res["violations"].append((path, "Send/Sync assertions for Arena<T>, Node<T>, NodeId no longer compile:\n" + "\n".join(msg)))
+        extra["send_sync_compile_time"] = "FAILED"
+    else:
+        rc, out, dt = ctx["sh"]([os.path.join(td, "vrel", "itv-c18-static")], timeout=600)
+        extra["send_sync_compile_time"] = "compiled for every T: Send + Sync; shared/moved arena smoke run: " + out.strip()
+        if rc != 0:
+            path = os.path.join(rdir, "send-sync-run.log")
+            open(path, "w").write(out)
+            res["violations"].append((path, "sharing / moving an arena between threads misbehaved: " + out.strip()[-300:]))
+    # (3) generated arenas x 16 concurrent readers
+    if not res["violations"]:
+        rc, out, dt = ctx["build"](["itv-c18"], "vrel", target_dir=td)
+        if rc != 0:
+            ctx["fail_infra"](prop, "itv-c18 does not build", out)
+        part = os.path.join(ctx["TARGET"], "partials", f"{prop}-rel.json")
+        if os.path.exists(part):
+            os.remove(part)
+        rc, out, dt = ctx["sh"]([os.path.join(td, "vrel", "itv-c18"), "run", "--tier", tier, "--seed", str(seed), "--out", part, "--build", "rel"], timeout=6 * 3600)
+        res["output"] += out
+        if rc in (0, 1) and os.path.exists(part):
+            p = json.load(open(part))
+            p["extra"] = extra
+            res["partials"].append(p)
+            if rc == 1 and p.get("violation"):
+                res["violations"].append((p["violation"]["replay"], p["violation"]["msg"]))
+        else:
+            res["inconclusive"] = f"itv-c18 exited with {rc}"
+    # (4) thorough: the same under ThreadSanitizer
+    if tier == "thorough" and not res["violations"]:
+        env = dict(ctx["ENV"], RUSTFLAGS="-Zsanitizer=thread")
+        tdt = os.path.join(ctx["TARGET"], "c18-tsan")
+        rc, out, dt = ctx["build"](["itv-c18"], "vrel", target_dir=tdt, nightly=True, extra=["-Zbuild-std", "--target", "x86_64-unknown-linux-gnu"], env=env)
+        if rc != 0:
+            res["inconclusive"] = "ThreadSanitizer build failed (infrastructure)"
+            res["output"] += out[-1500:]
+        else:
+            part = os.path.join(ctx["TARGET"], "partials", f"{prop}-tsan.json")
+            if os.path.exists(part):
+                os.remove(part)
+            exe = os.path.join(tdt, "x86_64-unknown-linux-gnu", "vrel", "itv-c18")
+            env2 = dict(ctx["ENV"], TSAN_OPTIONS="halt_on_error=1 exitcode=66")
+            rc, out, dt = ctx["sh"]([exe, "run", "--tier", tier, "--seed", str(seed ^ 0x75A), "--out", part, "--build", "tsan", "--cases", "1500"], timeout=6 * 3600, env=env2)
+            res["output"] += out[-3000:]
+            if rc == 66 or "ThreadSanitizer: data race" in out:
+                path = os.path.join(rdir, "tsan-report.txt")
+                open(path, "w").write(out)
+                res["violations"].append((path, "ThreadSanitizer reported a data race between concurrent readers"))
+            elif rc in (0, 1) and os.path.exists(part):
+                p = json.load(open(part))
+                p["distinct_group"] = "tsan"
+                res["partials"].append(p)
+                if rc == 1 and p.get("violation"):
+                    res["violations"].append((p["violation"]["replay"], p["violation"]["msg"]))
+            else:
+                res["inconclusive"] = f"itv-c18 (tsan) exited with {rc}"
+    if not res["partials"]:
+        # keep the evidence file meaningful even when only the static clauses ran
+        res["partials"].append(dict(build="static", label="compile-time and lexical clauses only", evaluations=len(files) + 1, distinct_nontrivial=0, samples=hits[:5] or ["(no hits)"], extra=extra))
+    return res
+
+
+def replay_c18(ctx):
+    td = os.path.join(ctx["TARGET"], "c18")
+    f = ctx["replay"]
+    if not f.endswith(".json"):
+        # compile log / lexical scan: re-run the static clauses
+        files, hits = lexical_scan()
+        rc, out, dt = ctx["build"](["itv-c18-static"], "vrel", target_dir=td)
+        for h in hits:
+            print(h)
+        if rc != 0:
+            print(out[-2000:])
+        bad = bool(hits) or rc != 0
+        if bad:
+            print(f"VIOLATION property=C18 replay={f}")
+        return 1 if bad else 0
+    rc, out, dt = ctx["build"](["itv-c18"], "vrel", target_dir=td)
+    if rc != 0:
+        print(out[-2000:])
+        return 2
+    rc, out, _ = ctx["sh"]([os.path.join(td, "vrel", "itv-c18"), "replay", "--file", f], timeout=3600)
+    print(out.rstrip())
+    if rc == 1:
+        print(f"VIOLATION property=C18 replay={f}")
+    return rc
+
+
+# ------------------------------------------------------------------------------------------------
 
 
 def merge_coverage(prop, partials, spec):
@@ -170,5 +432,9 @@ RULES["C14"] = "Generated documents: forest spec (each node attaches below the p
 RULES["C16"] = "Histories (removal-heavy, recycling, clear, rare generation-exhausting churn) with Roundtrip ops: the arena is serialised with serde_json and deserialised; the copy must be == the original, serialise to the same text, agree on is_removed for EVERY id ever issued, and then executes the rest of the history in lock-step with the original (same outcomes, Arena == after every call, and the copy is checked against the reference model as well). Non-trivial: the free list is non-empty at the round trip and a later call allocates; distinct by (forest shape, number of free / recycled / retired slots)."
 
 SPECS = {p: history_spec(p) for p in RULES}
+RULES["C17"] = "One seeded battery (E(3,3) exhaustively + generated histories over the whole core API: ids, links, errors with their Display text, nine traversals from every node, four pretty-printer modes, lookups, double-ended pulls) is executed by the same harness built against indextree with each feature set (quick: default, none = no_std+alloc, std, all four; thorough: all 16 subsets). Oracle: differential — per-history observation digests must be identical across builds; every build is also checked against the reference model; in par_iter builds the multiset of nodes visited by par_iter() must equal iter() at every sampled state. Non-trivial: a history with >= 1 error result and >= 1 recycled slot; distinct by (call class, forest shape)."
+SPECS["C17"] = dict(run=run_c17, replay=replay_c17, rule=RULES["C17"], assumptions=ASSUME + ["one target triple (x86_64-unknown-linux-gnu); the no_std build is linked into a std harness"])
+RULES["C18"] = "Generated arenas (histories with moves, removals, recycling; payload = plain data) are read by 16 threads at once (barrier start, 3-4 repetitions), each running a generated program of 8-31 reads (nine traversals incl. rev(), pretty printer, whole-arena iter/par_iter folds, get_node_id) from generated start nodes; oracle = the same programs run on one thread beforehand; an arena moved into another thread must behave the same. An evaluation is one read compared. Thorough repeats the run under ThreadSanitizer. Non-trivial: arena with >= 4 live nodes and depth >= 2; distinct by forest shape. The type-level clause is decided by compiling generic Send+Sync assertions; 'no unsafe / no interior mutability' by a lexical tripwire (auxiliary, reported under extra)."
+SPECS["C18"] = dict(run=run_c18, replay=replay_c18, rule=RULES["C18"], assumptions=["schedules are whatever the OS produces: 'every scheduling' is sampled, not enumerated (out of reach for this technique family)", "the type-level clause is decided by rustc on a generic function, the lexical scan covers indextree/src/*.rs only"])
 SPECS["C16"]["assumptions"] = ASSUME + ["one self-describing data format (serde_json) carries the derives under test; non-self-describing formats are not exercised"]
 SPECS["C14"]["assumptions"] = ["payload renderings are non-empty and do not end in a newline (the property's precondition), by construction", "documents have <= 20 (quick) / 28 (thorough) nodes, payloads <= 4 lines"]
